@@ -346,12 +346,25 @@ def certificate(C, d, x):
     r = Cl @ xl - dl
     g = Cl.T @ r
     rn = float(np.sqrt(np.sum(r * r)))
-    try:
-        nC = float(np.linalg.norm(C, 2)) if C.size else 0.0
-    except np.linalg.LinAlgError:
-        nC = float(np.linalg.norm(C))
-    nx = float(np.linalg.norm(x))
-    nd = float(np.linalg.norm(d))
+    # spectral norm computed on the matrix scaled to unit size: LAPACK's SVD of a matrix whose entries are ~1e-300
+    # (alpha = 1e-300 with a zero geometry matrix) underflows internally and returns NaN
+    sC = float(np.max(np.abs(C))) if C.size else 0.0
+    if sC == 0.0 or not np.isfinite(sC):
+        nC = 0.0 if sC == 0.0 else float("inf")
+    else:
+        try:
+            nC = sC * float(np.linalg.norm(C / sC, 2))
+        except np.linalg.LinAlgError:
+            nC = sC * float(np.linalg.norm(C / sC))
+        if not np.isfinite(nC):
+            nC = sC * float(np.linalg.norm(C / sC))
+    def _norm(v):
+        # scaled 2-norm: components of 1e281 must not overflow when squared
+        v = np.asarray(v, dtype=float).ravel()
+        sv = float(np.max(np.abs(v))) if v.size else 0.0
+        return sv * float(np.linalg.norm(v / sv)) if (sv > 0 and np.isfinite(sv)) else sv
+    nx = _norm(x)
+    nd = _norm(d)
     return np.asarray(g, dtype=float), rn, nC, nx, nd
 
 
